@@ -15,6 +15,9 @@ def check(res, thorough):
             stats, samples, diffs = ops_correspondence(res, scratch, "alias-ops", tier, "alias-ops", 15000, extra_args=[str(res.seed), KEYS], header_lines=1)
             res.coverage["alias_correspondence"] = stats
             res.coverage["traces_validated_against_impl"] = stats.get("alias.ops", 0)
+            st2, _, _ = ops_correspondence(res, scratch, "aliasp-ops", tier, "aliasp-ops", 30000, extra_args=[str(res.seed)])
+            res.coverage["aliasp-ops"] = st2
+            res.coverage["traces_validated_against_impl"] += st2.get("aliasp.ops", 0)
         if ok_h:
             s = suites.run_suite(["c15-spec", tier, str(res.seed)])
             new = suites.classify(res, "C15", s["findings"], f"asca-harness c15-spec {tier} {res.seed}")
